@@ -20,9 +20,11 @@
    S4 dsl.py ComponentFlowIR.convert_outputreferences_to_datareferences:
       `sorted(parameters_legacy.union(arguments_legacy))` (a set, sorted)       -> [sort (piS l)]
       and namespace_to_flowir.hash_environment `for key in sorted(environment)`  -> [sort_kv (piD l)]
-   S5 dsl.py the same method: `for ref_str in parameters_output.union(arguments_output):
-      arguments = arguments.replace(ref_str, new_ref_str)` (a set, NOT sorted)   -> [replace_refs piS]
-      (modelled, invariance NOT proved: covered only by the multi-seed correspondence runs)
+   S5 dsl.py the same method: `for ref_str in <set>: arguments = arguments.replace(ref_str, new_ref_str)`
+        pinned code     <set> = parameters_output.union(arguments_output) (NOT sorted) -> [replace_refs piS]
+        repaired code   sorted(parameters_output.union(arguments_output))   -> [replace_refs_sorted piS]
+      (Det.Refs: the pinned loop is invariant, and equal to the simultaneous substitution, exactly when the
+       reference strings are separated; otherwise two set orders give two argument strings: finding F15b)
 
    Dictionaries are association lists (V.Lib.JTree.jv); a YAML document never has a repeated key
    ([wfk]). *)
@@ -44,7 +46,9 @@ Definition oracle_sites : list string :=
     "S3 graph.ComponentSpecification._memoization_info_to_hash: sorted(obj)";
     "S4 dsl.ComponentFlowIR.convert_outputreferences_to_datareferences: sorted(parameters_legacy.union(arguments_legacy))";
     "S4 dsl.namespace_to_flowir.hash_environment: sorted(environment)";
-    "S5 dsl.ComponentFlowIR.convert_outputreferences_to_datareferences: for ref_str in parameters_output.union(arguments_output)" ].
+    "S5 dsl.ComponentFlowIR.convert_outputreferences_to_datareferences: sorted(parameters_output.union(arguments_output))" ].
+(* S6 (no oracle, not in the list): dsl.py namespace_to_flowir names components and environments while
+   iterating dictionaries whose insertion order is a function of the document: [dsl_names], [env_names] *)
 
 (* ---------------------------------------------------------------- S1: the list of variable files *)
 Fixpoint mem (x : string) (l : list string) : bool :=
@@ -228,10 +232,190 @@ Fixpoint ser_pi (piD : oracle (string * string)) (v : jv) : option string :=
 (* S4: the references of a DSL component: sorted(set) *)
 Definition references_of (piS : oracle string) (refs : list string) : list string := sort (piS (dedup_last refs)).
 
-(* S5: replacement of the output references in the arguments, in set order (invariance not proved) *)
-Definition replace_refs (piS : oracle string) (refs : list (string * string)) (args : string) : string :=
-  let order := piS (dedup_last (map fst refs)) in
+(* S5: replacement of the output references in the arguments: the loop
+     for ref_str in ORDER: arguments = arguments.replace(ref_str, new_ref_str)
+   refs maps every reference string of the set to the legacy data reference that replaces it. *)
+Definition apply_refs (refs : list (string * string)) (order : list string) (args : string) : string :=
   fold_left (fun a r => match lookup r refs with Some n => replace r n a | None => a end) order args.
+(* pinned code: ORDER = the iteration order of the set parameters_output.union(arguments_output).
+   Invariant only when the reference strings are separated (Det.Refs); refuted otherwise = finding F15b *)
+Definition replace_refs (piS : oracle string) (refs : list (string * string)) (args : string) : string :=
+  apply_refs refs (piS (dedup_last (map fst refs))) args.
+(* repaired code: ORDER = sorted(parameters_output.union(arguments_output)) *)
+Definition replace_refs_sorted (piS : oracle string) (refs : list (string * string)) (args : string) : string :=
+  apply_refs refs (sort (piS (dedup_last (map fst refs)))) args.
+
+(* ---------------------------------------------------------------- S6: DSL 2 component and environment naming *)
+(* dsl.py namespace_to_flowir names the components in the insertion order of `scopes.scopes` and the
+   environments in the order of first use.  No unordered source is involved: the order is a function
+   of the document, modelled here WITHOUT oracle.  The document, as far as the traversal reads it:
+   workflows (a list; each with its name, its `steps` MAPPING step -> template and its `execute` LIST
+   of step names), the names of the component templates, the template of the entry instance.
+   None = the namespace is rejected (DSLInvalidError). *)
+Record wf := mk_wf { wf_name : string; wf_steps : list (string * string); wf_exec : list string }.
+Record ns := mk_ns { ns_wfs : list wf; ns_comps : list string; ns_entry : string }.
+
+Fixpoint find_wf (n : string) (l : list wf) : option wf :=
+  match l with
+  | [] => None
+  | w :: r => if String.eqb n (wf_name w) then Some w else find_wf n r
+  end.
+
+Fixpoint nodup_strs (l : list string) : bool :=
+  match l with [] => true | x :: r => negb (mem x r) && nodup_strs r end.
+
+(* ScopeStack.discover_all_instances_of_templates: a work list; the children of a workflow are put in
+   front of it: first its COMPONENT steps in the REVERSE order of the execute list
+   (children_scopes.insert(0, ...)), then its WORKFLOW steps in the order of the execute list
+   (children_scopes.append(...)), each followed by its own descendants.  `steps` is used only as a
+   lookup table (and every step needs an execute entry).  Result: the component scopes in the order
+   they are entered = the insertion order of scopes.scopes restricted to components.
+   anc = the templates of the enclosing workflows (cycle check); fuel = nesting depth. *)
+Definition children (steps : list (string * string)) (comps : list string)
+           (vis : string -> string -> option (list (list string * string))) :=
+  fix go (ts : list string) : option (list (list string * string) * list (list string * string)) :=
+    match ts with
+    | [] => Some ([], [])
+    | t :: r =>
+        match lookup t steps with
+        | None => None
+        | Some tn =>
+            match vis t tn, go r with
+            | Some a, Some (cs, ws) => if mem tn comps then Some (cs ++ a, ws) else Some (cs, a ++ ws)
+            | _, _ => None
+            end
+        end
+    end.
+
+Fixpoint visit (fuel : nat) (d : ns) (anc : list string) (loc : list string) (tname : string)
+  : option (list (list string * string)) :=
+  match fuel with
+  | O => None
+  | S f =>
+      if mem tname (ns_comps d) then Some [(loc, tname)]
+      else match find_wf tname (ns_wfs d) with
+           | None => None
+           | Some w =>
+               if mem tname anc || negb (nodup_strs (wf_exec w)) ||
+                  negb (forallb (fun kv => mem (fst kv) (wf_exec w)) (wf_steps w)) then None
+               else
+                 match children (wf_steps w) (ns_comps d)
+                                (fun t tn => visit f d (tname :: anc) (loc ++ [t]) tn) (wf_exec w) with
+                 | Some (cs, ws) => Some (cs ++ ws)
+                 | None => None
+                 end
+           end
+  end.
+
+Definition component_scopes (d : ns) : option (list (list string * string)) :=
+  if nodup_strs (ns_comps d ++ map wf_name (ns_wfs d))
+  then visit (S (S (length (ns_wfs d)))) d [] ["entry-instance"] (ns_entry d)
+  else None.
+
+(* number_to_roman_like_numeral *)
+Fixpoint rep_str (n : nat) (s : string) : string := match n with O => "" | S k => (s ++ rep_str k s)%string end.
+Definition roman (v : nat) : string :=
+  let r := Nat.modulo v 10 in
+  (rep_str (Nat.div v 10) "X" ++
+   (if Nat.eqb r 9 then "IX"
+    else if Nat.leb 5 r then "V" ++ rep_str (r - 5) "I"
+    else if Nat.eqb r 4 then "IV"
+    else rep_str r "I"))%string.
+
+(* SignatureNamePattern (stage(?P<stage>([0-9]+))\.)?(?P<name>([A-Za-z0-9._-]*[A-Za-z_-]+)), fullmatch *)
+Definition is_lower (a : ascii) : bool := let n := nat_of_ascii a in Nat.leb 97 n && Nat.leb n 122.
+Definition name_last_ch (a : ascii) : bool :=
+  is_upper a || is_lower a || Ascii.eqb a "_" || Ascii.eqb a "-".
+Definition name_ch (a : ascii) : bool := name_last_ch a || is_digit a || Ascii.eqb a ".".
+Fixpoint last_ch (s : string) : option ascii :=
+  match s with
+  | EmptyString => None
+  | String c EmptyString => Some c
+  | String _ r => last_ch r
+  end.
+Definition name_ok (s : string) : bool :=
+  all_chars name_ch s && match last_ch s with Some c => name_last_ch c | None => false end.
+Fixpoint take_digits (s : string) : string :=
+  match s with
+  | String c r => if is_digit c then String c (take_digits r) else EmptyString
+  | EmptyString => EmptyString
+  end.
+Definition parse_name (s : string) : option (N * string) :=
+  let with_stage :=
+    if prefixb "stage" s then
+      let rest := drop 5 s in
+      let ds := take_digits rest in
+      match ds, drop (String.length ds) rest with
+      | String _ _, String "." nm => if name_ok nm then option_map (fun n => (n, nm)) (undec ds) else None
+      | _, _ => None
+      end
+    else None in
+  match with_stage with
+  | Some r => Some r
+  | None => if name_ok s then Some (0%N, s) else None
+  end.
+
+Definition id_eqb (a b : N * string) : bool := N.eqb (fst a) (fst b) && String.eqb (snd a) (snd b).
+
+(* the `while True` loop: the next candidate name of the step until its (stage, name) is not taken *)
+Fixpoint pick (fuel : nat) (step : string) (names : list (string * nat)) (taken : list (N * string))
+  : option (list (string * nat) * (N * string)) :=
+  match fuel with
+  | O => None
+  | S f =>
+      let nc := match lookup step names with
+                | None => (set_key step O names, step)
+                | Some c => (set_key step (S c) names, (step ++ "-" ++ roman (S c))%string)
+                end in
+      match parse_name (snd nc) with
+      | None => None
+      | Some i => if existsb (id_eqb i) taken then pick f step (fst nc) taken else Some (fst nc, i)
+      end
+  end.
+
+Fixpoint assign_names (names : list (string * nat)) (taken : list (N * string)) (scs : list (list string * string))
+  : option (list (list string * (N * string))) :=
+  match scs with
+  | [] => Some []
+  | (loc, _) :: r =>
+      match pick (S (List.length taken)) (last loc "") names taken with
+      | None => None
+      | Some (names', i) => option_map (cons (loc, i)) (assign_names names' (i :: taken) r)
+      end
+  end.
+
+(* location of every component instance -> (stage, name), in the order the components are named *)
+Definition dsl_names (d : ns) : option (list (list string * (N * string))) :=
+  match component_scopes d with
+  | Some scs => assign_names [] [] scs
+  | None => None
+  end.
+
+(* environments: hash_environment = the (key, str(value)) pairs with a value, keys sorted; an
+   environment seen for the first time is called env<number of known environments>; {} -> "none";
+   no environment -> None *)
+Definition env_hash (e : list (string * option string)) : list (string * string) :=
+  flat_map (fun kv => match snd kv with Some v => [(fst kv, v)] | None => [] end) (sort_kv e).
+Fixpoint hash_eqb (a b : list (string * string)) : bool :=
+  match a, b with
+  | [], [] => true
+  | x :: r, y :: s => String.eqb (fst x) (fst y) && String.eqb (snd x) (snd y) && hash_eqb r s
+  | _, _ => false
+  end.
+Fixpoint env_names (known : list (list (string * string) * string)) (envs : list (option (list (string * option string))))
+  : list (option string) :=
+  match envs with
+  | [] => []
+  | None :: r => None :: env_names known r
+  | Some [] :: r => Some "none" :: env_names known r
+  | Some e :: r =>
+      let h := env_hash e in
+      match List.find (fun p => hash_eqb (fst p) h) known with
+      | Some p => Some (snd p) :: env_names known r
+      | None => let nm := ("env" ++ dec (N.of_nat (List.length known)))%string in
+                Some nm :: env_names (known ++ [(h, nm)]) r
+      end
+  end.
 
 (* ---------------------------------------------------------------- checkers used by the correspondence run *)
 Definition read_of (tbl : list (string * jv)) (path : string) : jv :=
@@ -295,3 +479,41 @@ Definition check_refs (c : list string * list string) : bool :=
      | x :: r, y :: s => String.eqb x y && eq r s
      | _, _ => false
      end) (references_of id_oracle found) refs.
+
+(* replacement case = ((reference string -> data reference that replaces it, arguments before the loop),
+                       arguments after the loop as left by the implementation) *)
+Definition check_replace (c : (list (string * string) * string) * string) : bool :=
+  let '((refs, args), out) := c in
+  String.eqb (replace_refs_sorted id_oracle refs args) out &&
+  String.eqb (replace_refs_sorted (@rev _) refs args) out.
+
+
+(* naming case = (namespace, (location, (stage, name)) of every component in naming order (None: rejected)) *)
+Fixpoint strs_eqb (a b : list string) : bool :=
+  match a, b with
+  | [], [] => true
+  | x :: r, y :: s => String.eqb x y && strs_eqb r s
+  | _, _ => false
+  end.
+Fixpoint names_eqb (a b : list (list string * (N * string))) : bool :=
+  match a, b with
+  | [], [] => true
+  | x :: r, y :: s => strs_eqb (fst x) (fst y) && id_eqb (snd x) (snd y) && names_eqb r s
+  | _, _ => false
+  end.
+Definition check_names (c : ns * option (list (list string * (N * string)))) : bool :=
+  match dsl_names (fst c), snd c with
+  | Some a, Some b => names_eqb a b
+  | None, None => true
+  | _, _ => false
+  end.
+
+(* environment case = (environment of every component in naming order, command.environment given to each) *)
+Fixpoint onames_eqb (a b : list (option string)) : bool :=
+  match a, b with
+  | [], [] => true
+  | x :: r, y :: s => opt_str_eqb x y && onames_eqb r s
+  | _, _ => false
+  end.
+Definition check_envs (c : list (option (list (string * option string))) * list (option string)) : bool :=
+  onames_eqb (env_names [] (fst c)) (snd c).
